@@ -29,17 +29,28 @@ import sys
 
 from gen_tables import emit, zlist, zstr, REPO
 
-# text argument of Char(..)/_CHAR_CACHE[..] at the reviewed store sites
-SAFE_CHAR_ARGS = {
-    "c",                        # for c in text           (containers._copy_body.copy_line)
-    "prev_char.char + c",       # zero-width merge        (containers._copy_body.copy_line)
-    "''", "' '",                # literals
-    "char or ' '",              # Window._fill_bg (Window.char, application supplied)
-    "digraph_char",             # Window._highlight_digraph ('?' or None)
-    "data",                     # Window._show_key_processor_key_buffer (key data of width 1)
-    "original_char.char", "cell.char", "char.char",   # restyling an existing cell
-    "self.up_arrow_symbol", "self.down_arrow_symbol",  # ScrollablePane arrows
+# The text argument `a` of every Char(a, ..)/_CHAR_CACHE[a, ..] that is stored
+# into a screen cell is classified by dataflow inside its function:
+#   literal   a string constant without control characters
+#   char      a loop variable of `for a in T` where T is the text element of a
+#             fragment tuple unpacked by `for S, T, *_ in L`: ONE element of an
+#             iterated string                         -> Theorem C10_cell_clean
+#   merge     `P.char + c` with P a cell read from a screen row and c of class
+#             `char`, stored under `elif char_width == 0` where
+#             `char_width = char.width`, `char = _CHAR_CACHE[c, style]`
+#                                                     -> Theorem C10_merge_clean
+#   restyle   `X.char` with X a cell read from a screen row (or a loop variable
+#             over row.items())                       -> Theorem C10_rewrap_stable
+#   reviewed  anything else must be listed here, with the reason it is not
+#             displayed content:
+REVIEWED_BY_HAND = {
+    "char or ' '": "Window.char: application supplied fill character",
+    "digraph_char": "Window._get_digraph_char: '^', '?' or the data of ONE key press in Vi digraph mode (key data, see key_sequences facts)",
+    "data": "Window._show_key_processor_key_buffer: data of a pending key, only if get_cwidth(data) == 1 (see key_sequences facts)",
+    "self.up_arrow_symbol": "ScrollablePane arrow symbol: application supplied",
+    "self.down_arrow_symbol": "ScrollablePane arrow symbol: application supplied",
 }
+
 # dictionaries written by subscript in the same functions that are not screens
 NON_SCREEN_SUBSCRIPT_BASES = {
     "visible_line_to_row_col", "current_rowcol_to_yx", "rowcol_to_yx", "mouse_handlers_row",
@@ -82,7 +93,7 @@ class _Scope:
         self.path, self.fn = path, fn
         self.buffers, self.rows, self.caches, self.zrows = set(), set(), {"_CHAR_CACHE"}, set()
         self.assigns = {}      # name -> [value expr]
-        self.problems, self.sites = [], []
+        self.problems, self.sites, self.classes, self.item_cells = [], [], [], set()
 
     def is_buffer(self, e):
         return (isinstance(e, ast.Attribute) and e.attr == "data_buffer") or \
@@ -119,6 +130,9 @@ class _Scope:
                         if self.is_buffer(it.func.value) and nm not in self.rows:
                             self.rows.add(nm)
                             changed = True
+                        if self.is_row(it.func.value) and nm not in self.item_cells:
+                            self.item_cells.add(nm)
+                            changed = True
                 for t, v in pairs:
                     if not isinstance(t, ast.Name):
                         continue
@@ -142,6 +156,94 @@ class _Scope:
                     if isinstance(t, ast.Name):
                         self.assigns.setdefault(t.id, []).append(None)   # loop variable: not a cell expression
 
+    def _bindings(self, name):
+        return self.assigns.get(name) or []
+
+    def _is_cell_name(self, name):
+        """name is only ever bound to a cell read from a screen row (or to the value of row.items())"""
+        vals = self._bindings(name)
+        if not vals:
+            return False
+        for v in vals:
+            if v is None:
+                if name not in self.item_cells:
+                    return False
+            elif not (isinstance(v, ast.Subscript) and self.is_row(v.value)):
+                return False
+        return True
+
+    def _is_text_char(self, name):
+        """`for name in T` with T unpacked as the text of a fragment: `for S, T, *_ in L`"""
+        ok = False
+        for n in ast.walk(self.fn):
+            if isinstance(n, ast.For) and isinstance(n.target, ast.Name) and n.target.id == name:
+                if not isinstance(n.iter, ast.Name):
+                    return False
+                t = n.iter.id
+                src = [m for m in ast.walk(self.fn) if isinstance(m, ast.For) and isinstance(m.target, ast.Tuple)
+                       and len(m.target.elts) >= 2 and isinstance(m.target.elts[1], ast.Name) and m.target.elts[1].id == t]
+                if not src or len(self._bindings(t)) != len(src):
+                    return False       # the text name is also bound elsewhere
+                ok = True
+        # the loop variable must not be rebound by an assignment
+        return ok and all(v is None for v in self._bindings(name))
+
+    def classify_text(self, a, store):
+        """-> (class, None) or (None, reason)"""
+        if isinstance(a, ast.Constant) and isinstance(a.value, str):
+            if any(ord(c) < 32 or ord(c) == 127 or 128 <= ord(c) < 160 for c in a.value):
+                return None, "string literal %r contains a control character" % a.value
+            return "literal", None
+        if isinstance(a, ast.Name) and self._is_text_char(a.id):
+            return "char", None
+        if isinstance(a, ast.Attribute) and a.attr == "char" and isinstance(a.value, ast.Name) and self._is_cell_name(a.value.id):
+            return "restyle", None
+        if isinstance(a, ast.BinOp) and isinstance(a.op, ast.Add) and isinstance(a.left, ast.Attribute) and a.left.attr == "char" \
+                and isinstance(a.left.value, ast.Name) and self._is_cell_name(a.left.value.id) \
+                and isinstance(a.right, ast.Name) and self._is_text_char(a.right.id):
+            c = a.right.id
+            tests = self.enclosing_tests_any(a)
+            cw = [_u(v) for v in self._bindings("char_width") if v is not None]
+            ch = [_u(v) for v in self._bindings("char") if v is not None]
+            if "char_width == 0" in tests and cw == ["char.width"] and ch == ["_CHAR_CACHE[%s, style]" % c]:
+                return "merge", None
+            return None, "zero-width merge `%s` is not under `char_width == 0` with char_width = char.width, char = _CHAR_CACHE[%s, style] (tests %r, char_width %r, char %r)" % (_u(a), c, tests, cw, ch)
+        if _u(a) in REVIEWED_BY_HAND:
+            return "reviewed", None
+        return None, "text argument `%s` is neither a clean literal, one element of an iterated fragment text, a guarded zero-width merge, the text of an existing cell, nor listed in REVIEWED_BY_HAND" % _u(a)
+
+    def enclosing_tests_any(self, node):
+        """tests of the if/elif branches (bodies and else-chains) that contain `node`"""
+        out = []
+
+        def go(n, tests):
+            if n is node:
+                out.extend(tests)
+                return True
+            if isinstance(n, ast.If):
+                for ch in n.body:
+                    if go(ch, tests + [_u(n.test)]):
+                        return True
+                for ch in n.orelse:
+                    if go(ch, tests):
+                        return True
+                if go(n.test, tests):
+                    return True
+                return False
+            for ch in ast.iter_child_nodes(n):
+                if go(ch, tests):
+                    return True
+            return False
+        go(self.fn, [])
+        return out
+
+    def _text_ok(self, a):
+        cls, why = self.classify_text(a, None)
+        if cls:
+            self.classes.append((cls, _u(a)))
+            return None
+        return why
+
     def cell_value(self, v, depth=0):
         """None when v is an accepted cell expression, else a reason."""
         if v is None:
@@ -152,11 +254,11 @@ class _Scope:
             else:
                 kw = [k.value for k in v.keywords if k.arg == "char"]
                 a = kw[0] if kw else ast.Constant(" ")
-            return None if _u(a) in SAFE_CHAR_ARGS else "unreviewed Char text argument `%s`" % _u(a)
+            return self._text_ok(a)
         if isinstance(v, ast.Subscript) and isinstance(v.value, ast.Name) and v.value.id in self.caches:
             sl = v.slice
             if isinstance(sl, ast.Tuple) and len(sl.elts) == 2:
-                return None if _u(sl.elts[0]) in SAFE_CHAR_ARGS else "unreviewed _CHAR_CACHE text argument `%s`" % _u(sl.elts[0])
+                return self._text_ok(sl.elts[0])
             return "unexpected _CHAR_CACHE key `%s`" % _u(sl)
         if isinstance(v, ast.Subscript) and self.is_row(v.value):
             return None     # a cell read from a screen row
@@ -268,6 +370,7 @@ def scan(repo=None):
     repo = (repo or REPO).rstrip("/")
     root = repo + "/src/prompt_toolkit"
     problems, sites = [], []
+    scan.classes = []
     files = sorted(glob.glob(root + "/layout/*.py"))
     if len(files) < 10:
         return ["layout/*.py not found under %s" % root], []
@@ -283,6 +386,7 @@ def scan(repo=None):
             sc.check()
             problems += sc.problems
             sites += sc.sites
+            scan.classes += sc.classes
         # module level code must not touch screens
         for n in tree.body:
             if not isinstance(n, (ast.FunctionDef, ast.AsyncFunctionDef, ast.ClassDef)):
@@ -374,14 +478,28 @@ def t_C10_DisplayMappings():
     problems, sites = scan()
     for pr in problems:
         sys.stderr.write("gen_t_c10: structural side condition failed: " + pr + "\n")
+    from prompt_toolkit.input.ansi_escape_sequences import ANSI_SEQUENCES
+    from prompt_toolkit.utils import get_cwidth
+    if type(ANSI_SEQUENCES) is not dict or not (100 < len(ANSI_SEQUENCES) < 5000) or not all(isinstance(k, str) for k in ANSI_SEQUENCES):
+        die("unexpected ANSI_SEQUENCES shape")
+    seqs = ["(%s, %d)" % (zstr(k), get_cwidth(k)) for k in ANSI_SEQUENCES if len(k) > 1]
+    import collections
+    cls = collections.Counter(c for c, _ in getattr(scan, "classes", []))
     body = ("(* Char.display_mappings of layout/screen.py: code point -> display string *)\n"
             "Definition display_mappings : list (Z * list Z) :=\n  [" + ";\n   ".join(rows) + "].\n\n"
             "(* AST scan of the screen-cell / zero-width-escape stores and write_raw call sites\n"
             "   (gen/gen_t_c10.py scan): %d sites classified, %d problem(s)%s *)\n"
-            "Definition store_sites_reviewed : bool := %s.\n"
+            "Definition store_sites_reviewed : bool := %s.\n\n"
+            "(* text arguments of the stored Char(..)/_CHAR_CACHE[..] by dataflow class: %s *)\n"
+            "Definition text_args_reviewed_by_hand : Z := %d.\n\n"
+            "(* input/ansi_escape_sequences.py ANSI_SEQUENCES: every key of more than one character,\n"
+            "   with utils.get_cwidth of it (the data a multi-character key press can carry) *)\n"
+            "Definition key_sequences : list (list Z * Z) :=\n  [%s].\n"
             % (len(sites), len(problems),
                "".join("\n   - " + pr.replace("*)", "* )").replace("(*", "( *") for pr in problems[:10]),
-               "false" if problems else "true"))
+               "false" if problems else "true",
+               ", ".join("%s %d" % kv for kv in sorted(cls.items())), cls.get("reviewed", 0),
+               ";\n   ".join(seqs)))
     return emit("C10_DisplayMappings", body)
 
 
